@@ -95,7 +95,7 @@ def run(ctx):
         tr = tlc_with_cfg(ctx, "Transcript", transcript_cfg(sh), "Transcript_" + inst)
         hf = os.path.join(tr["dir"], "challenger_histories.json")
         rq = dict(files)
-        rq.update({"part": "transcript", "histories": hf, "instance": inst, "k": k, "variants": ["real", "random"],
+        rq.update({"part": "transcript", "histories": hf, "instance": inst, "k": k, "variants": ["real", "random", "real+pow0", "random+pow0", "random+pow1", "random+pow20"],
                    "nperturb": 60 if thorough else 12, "shard": len(jobs)})
         jobs.append(("c11", rq, "t-" + inst))
 
